@@ -181,6 +181,19 @@ def run(rep, facts):
                 if not (a_role[0] == 'field' and a_role[2] == 'role' and a_cur[0] == 'field' and a_cur[2] == 'stream' and ir.peel(a_cur[1])[0] == 'param'
                         and any(y[0] == 'param' for y in ir.walk(a_new))):
                     rep.violation("R18.2", "set_stream/order-test-args", "the order test compares %s" % ir.show(cmpc)[:100], b.loc())
+            if e[0] == 'discr' and ir.peel(e[1])[0] == 'call' and ir.peel(e[1])[1].endswith("cmp_input_streams") and isinstance(lab, tuple):
+                # the same test as a `match` on the ordering
+                names = {-1: "Less", 255: "Less", 0: "Equal", 1: "Greater"}
+                if lab[0] == 'case':
+                    less_test = names.get(lab[1]) == "Less"
+                else:
+                    excl = {names.get(v) for v in lab[1]}
+                    less_test = False if "Less" in excl else (True if {"Equal", "Greater"} <= excl else None)
+                cmpc = ir.peel(e[1])
+                a_role, a_new, a_cur = (ir.peel(x) for x in cmpc[2])
+                if not (a_role[0] == 'field' and a_role[2] == 'role' and a_cur[0] == 'field' and a_cur[2] == 'stream' and ir.peel(a_cur[1])[0] == 'param'
+                        and any(y[0] == 'param' for y in ir.walk(a_new))):
+                    rep.violation("R18.2", "set_stream/order-test-args", "the order test compares %s" % ir.show(cmpc)[:100], b.loc())
             if e[0] == 'call' and (e[1].endswith("::ne") or e[1].endswith("::eq")) and any(y[0] == 'field' and y[2] == 'stream' for y in ir.walk(e)) and \
                     not any(y[0] == 'call' and y[1].endswith("cmp_input_streams") for y in ir.walk(e)):
                 t = dispatch.label_truth(lab)
